@@ -196,7 +196,13 @@ pub fn gen_graph_project(rng: &mut Rng, tier: Tier, ptr: usize) -> Project {
             fn_counter += 1;
             Func {
                 vis: true,
-                name: format!("f{fn_counter}"),
+                // Some names start with an underscore: such functions get no wrapper in the
+                // output, but they are declared and their signature must resolve like any other.
+                name: if rng.chance(1, 5) {
+                    format!("_f{fn_counter}")
+                } else {
+                    format!("f{fn_counter}")
+                },
                 recv: if virt || rng.chance(1, 2) {
                     Some(rng.chance(1, 2))
                 } else {
@@ -414,7 +420,11 @@ pub fn gen_graph_project(rng: &mut Rng, tier: Tier, ptr: usize) -> Project {
                 fn_counter += 1;
                 let mut f = Func {
                     vis: true,
-                    name: format!("f{fn_counter}"),
+                    name: if rng.chance(1, 4) {
+                        format!("_f{fn_counter}")
+                    } else {
+                        format!("f{fn_counter}")
+                    },
                     recv: Some(false),
                     args: vec![],
                     ret: None,
@@ -635,7 +645,43 @@ pub fn completeness(
         }
         for (ty, f) in declared {
             if f.name.as_str().starts_with('_') {
-                continue; // internal functions are not emitted as wrappers
+                // Internal functions are not emitted as wrappers, but they are part of the
+                // resolved type: checked there when the entry point hands the state back.
+                if let Some(rs) = &r.resolved {
+                    let path = mpath.join(ty.as_str().into());
+                    let found = rs
+                        .type_registry()
+                        .get(&path)
+                        .and_then(|i| i.resolved())
+                        .and_then(|res| res.inner.as_type())
+                        .map(|td| {
+                            td.associated_functions
+                                .iter()
+                                .chain(td.vftable.iter().flat_map(|v| v.functions.iter()))
+                                .any(|g| {
+                                    g.name == f.name.as_str()
+                                        && g.arguments.iter().filter(|a| !a.is_self()).count()
+                                            == f.arguments
+                                                .iter()
+                                                .filter(|a| {
+                                                    matches!(a, pyxis::grammar::Argument::Named(..))
+                                                })
+                                                .count()
+                                        && g.return_type.is_some() == f.return_type.is_some()
+                                })
+                        })
+                        .unwrap_or(false);
+                    if !found {
+                        return Err((
+                            "function-left-out".into(),
+                            format!(
+                                "`{path}::{}` is declared but not part of the resolved type (or lost a parameter / its return type)",
+                                f.name
+                            ),
+                        ));
+                    }
+                }
+                continue;
             }
             let Some(method) = inv
                 .methods
